@@ -123,6 +123,18 @@ type c10Rec struct {
 
 	Unused uint64 `json:"unused,omitempty"`
 	Active uint64 `json:"active,omitempty"`
+
+	// lifetime-agreement monitor (c10_life_records.jsonl): "Q" = start of a sequence, "L" = lookup after a sweep
+	Seq    int    `json:"seq,omitempty"`
+	Fam    string `json:"fam,omitempty"` // exh1 | exh2 | rand
+	Ops    string `json:"ops,omitempty"` // the operations executed so far in this sequence
+	Reg    int    `json:"reg,omitempty"`
+	Holds  bool   `json:"holds,omitempty"`  // after the sweep the station still serves the registration for a connection
+	HadDup bool   `json:"haddup,omitempty"` // delivered again (nothing published) since the announcement of its current state
+	Window bool   `json:"window,omitempty"` // lifetime since that announcement is over, lifetime since the last re-delivery is not
+	VT     uint64 `json:"vt,omitempty"`     // virtual time (sum of the back-dating steps), ns
+	AgeAnn uint64 `json:"ageann,omitempty"`
+	AgeDup uint64 `json:"agedup,omitempty"`
 }
 
 type c10Case struct {
@@ -141,8 +153,9 @@ type c10Case struct {
 	advBefore uint64
 	advUpdate uint64
 	advDup    uint64
-	dup1      int // redelivery before use: 0 none, 1 same registrant, 2 another registrant
-	dup2      int // redelivery after use
+	src       pb.RegistrationSource // 0 = API
+	dup1      int                   // redelivery before use: 0 none, 1 same registrant, 2 another registrant
+	dup2      int                   // redelivery after use
 }
 
 func (c *c10Case) String() string {
@@ -338,6 +351,9 @@ func (c *c10Case) wrapper() ([]byte, error) {
 		c2s.TransportParams = a
 	}
 	src := pb.RegistrationSource_API
+	if c.src != 0 {
+		src = c.src
+	}
 	w := &pb.C2SWrapper{SharedSecret: c.secret, RegistrationPayload: c2s, RegistrationSource: &src, RegistrationResponse: c.rr}
 	if c.registr != nil {
 		w.RegistrationAddress = c.registr
